@@ -616,6 +616,18 @@ def run_e2e(ctx, stats, pairs, pair_lines, pair_cmp, impls, impl_lines, specs, m
         bodies["r"].append("func case%d() {\n\tok, sw := %sIs%d(%sMk%d())\n\tprintln(%d, \"assert\", ok, sw)\n%s}\n" % (cn, qb, cn, qa, cn, cn, extra))
         case_meta.append(("pair", idx))
         main_calls.append("case%d()" % cn)
+    # uncomparable dynamic types: interface == and map[any] insertion must PANIC exactly as under the reference build
+    # (a blank field counts: struct{ _ [0]func(); x int } is the "make it incomparable" idiom)
+    for usrc in ["struct{ _ [0]func(); x int }", "[2]struct{ _ [0]func(); x int }", "struct{ F struct{ _ [0]func(); x int }; G int }",
+                 "struct{ _ []int; x int }", "struct{ x int; _ map[int]int }", "struct{ _ func() }", "[1][]int", "struct{ a int; f func() }",
+                 "struct{ _ [0]uint64; x int }", "struct{ _ int; x int }", "[0]func()", "struct{ _ [0]struct{ _ []int }; y uint8 }"]:
+        cn = len(case_meta)
+        bodies["r"].append(("func case%d() {\n\tvar a, b any = *new(%s), *new(%s)\n"
+                            "\tfunc() {\n\t\tdefer func() { println(%d, \"eq-panicked\", recover() != nil) }()\n\t\tprintln(%d, \"eq\", a == b)\n\t}()\n"
+                            "\tfunc() {\n\t\tdefer func() { println(%d, \"map-panicked\", recover() != nil) }()\n\t\tm := map[any]int{}\n\t\tm[a] = 1\n\t\tm[b] = 2\n\t\tprintln(%d, \"map\", len(m))\n\t}()\n}\n")
+                           % (cn, usrc, usrc, cn, cn, cn, cn))
+        case_meta.append(("uncomparable", usrc))
+        main_calls.append("case%d()" % cn)
     # implements cases (home r only), with the method call through the interface for two known interfaces
     n_impl = 0
     for i, line in enumerate(impl_lines):
@@ -673,6 +685,10 @@ def run_e2e(ctx, stats, pairs, pair_lines, pair_cmp, impls, impl_lines, specs, m
         if a == b:
             continue
         diffs += 1
+        if kind == "uncomparable":
+            ctx.report("e2e:uncomparable:%s" % ref_i, "interface == / map[any] insertion on a value of an uncomparable (or comparable) type behaves differently from the reference build",
+                       {"type": ref_i, "reference_go": a, "llgo": b})
+            continue
         if kind == "pair":
             label, pr = pairs[ref_i]
             why = by_idx[ref_i][4]
